@@ -58,7 +58,7 @@ func nestFailStream(cfg *Config) *hx.Stats {
 	rng := rand.New(rand.NewSource(cfg.Seed*7919 + 101))
 	w := hx.NewW(filepath.Join(cfg.Out, fmt.Sprintf("nestfail-%d.trace", cfg.Seed)))
 	defer w.Close()
-	nProg := int(12 * cfg.Scale)
+	nProg := int(16 * cfg.Scale)
 	if nProg < 2 {
 		nProg = 2
 	}
@@ -525,6 +525,14 @@ func (e *nestEnv) opNotifyFail() {
 		}
 	}
 	if len(e.st.Violations) > 10 {
+		return
+	}
+	if mode == "ledger" && level != "direct" {
+		// Dropping the read cache orphaned the slab objects of the inlined ancestors' handles; the levels the
+		// failed request did update were updated on those objects, not on what the storage now reads.  Only
+		// failures in the child's own parent are followed up in this mode.
+		e.st.Hit("observation:failed-notification:ledger-mode-level-" + level + "-not-continued")
+		e.abandoned = true
 		return
 	}
 	// what did the failed request leave in the child?  (observed through the child's own handle)
